@@ -361,7 +361,7 @@ func c04Spec(rng *rand.Rand, i int) (*SessSpec, string) {
 
 func init() {
 	drv.Register(&drv.Prop{
-		ID: "C04", Level: "exploration", Parallel: 8, Batch: 6, MinConclusive: 40,
+		ID: "C04", Level: "exploration", Parallel: 12, Batch: 1, MinConclusive: 40,
 		Rule: "acks: deliveries on 2-8 vBuckets are acknowledged in reverse / random order, repeatedly, late, and concurrently from one goroutine per vBucket while two readers poll GET /states/offset; " +
 			"oracle: TrackOffset notifications never decrease, the quiescent read / last notification / next save equal max(resume, furthest settled), and each vBucket's reads are linearizable against a max-register (porcupine, partitioned by vBucket). " +
 			"range: dynamic membership shrinks the assigned range (PUT /membership/info), then events delivered before are acknowledged: no tracker notification, offsets entry or checkpoint write may appear for a vBucket outside the range. " +
